@@ -21,7 +21,7 @@ from ..runner import HERE, REPO, short
 from . import c19_helper as H
 
 ID = "C19"
-N = {"quick": 7000, "thorough": 260000}
+N = {"quick": 20000, "thorough": 260000}
 TIME_BUDGET = {"quick": 50, "thorough": 540}
 MIN_NONTRIVIAL = {"quick": 300, "thorough": 3000}
 RULE = ("family P1 (60%): random TypeSpec / data class entered through every route under options incl. exclude/preserve/"
